@@ -287,6 +287,14 @@ func execC11(x *Ctx, sc *wire.Scenario) *wire.Result {
 		textLast = l.lastRow - 1
 	}
 	cr, cc, _ := t.Cursor()
+	// the shape as it actually is (the generator's label does not survive minimisation)
+	xx.Shape = shapeClass([]rune(line), anchorCol, t.W)
+	if line == "" {
+		xx.Shape = "empty"
+	}
+	if userPanic {
+		xx.Shape = "any"
+	}
 	ctx := fmt.Sprintf("after %s with buffer %q (shape %s): terminal cursor at (%d,%d), input occupies rows %d..%d; screen %q", how, line, xx.Shape, cr, cc, anchorRow, textLast, t.Dump())
 	if cc != 0 {
 		return violation(res, "TERMINAL", "C11.cursor-on-fresh-row", "cursor-col:"+cls+":"+xx.Shape, "cursor not in column 0 "+ctx)
